@@ -92,6 +92,11 @@ def spellings(m):
         ipint = struct.unpack(">L", octs[:4])[0]
         local.append((["tuple", ip, port], None, False))
         local.append((["tuple", ipint, port], None, False))
+        if ipint == 0:
+            local.append((["tuple", "", port], None, False))       # the socket convention for 'any address'
+            local.append((["tuple", ipint - (1 << 32) if False else 0, port], None, False))
+        if ipint >= (1 << 31):
+            local.append((["tuple", ipint - (1 << 32), port], None, False))       # a negative host integer, as the BBMD code builds them
         if t == LS:
             local.append((None, ":".join("%02x" % b for b in octs), False))       # ethernet notation, local only
         prefix = m.get("prefix")
@@ -178,7 +183,11 @@ def check_refuse(sp, what):
         return []
     except Exception as err:
         return [("refuse:%s:%s:wrong-exception:%s" % (what, tag, type(err).__name__), "%r raised %r" % (sp, err))]
-    return [("refuse:%s:%s:accepted" % (what, tag.split("-")[0]), "%r accepted as %r (type %r net %r addr %r)" % (sp, a, a.addrType, a.addrNet, a.addrAddr))]
+    try:
+        shown = repr(a)
+    except Exception as err:
+        shown = "<an address that cannot even be printed: %r>" % (err,)
+    return [("refuse:%s:%s:accepted" % (what, tag.split("-")[0]), "%r accepted as %s (type %r net %r addr %r)" % (sp, shown, a.addrType, a.addrNet, a.addrAddr))]
 
 
 def check_pool(groups):
@@ -409,3 +418,27 @@ def run(spec, ctx):
         strat = st.tuples(st.text(alphabet=good, max_size=8), st.sampled_from(bad), st.text(alphabet=good + bad, max_size=8)) \
             .map(lambda t: dict(k="refuse", what="garbage", sp=["str", t[0] + t[1] + t[2]]))
         ctx.for_all(strat, spec["n"])
+        # near misses: a valid hex / X'' / dotted spelling with one character replaced by a neighbour of the hex digits or a separator look-alike
+        confus = "GgHhZz[\\]^_`;,+ lOoIi"
+        base = ["0x0102", "7:0x0102", "0x01", "65534:0xff", "X'0102'", "7:X'01'", "0x010203040506", "1.2.3.4", "1.2.3.4:47809", "7:1.2.3.4", "1.2.3.4/24", "01:02:03:04:05:06"]
+        n_ = 0
+        for b_ in base:
+            for pos in range(len(b_)):
+                for ch in confus:
+                    if b_[pos] == ch:
+                        continue
+                    cand = b_[:pos] + ch + b_[pos + 1:]
+                    if any(c_ in "GgHhZz[\\]^_`;,+ lOoIi" for c_ in cand):
+                        ctx.check(dict(k="refuse", what="near-miss", sp=["str", cand]))
+                        n_ += 1
+            for pos in range(len(b_) + 1):
+                for ch in ("G", "g", "_", "`", "[", " ", "GG", "Gh", "__", "ZZ", "^_", "1G", "G1", "g0"):
+                    ctx.check(dict(k="refuse", what="near-miss", sp=["str", b_[:pos] + ch + b_[pos:]]))
+            # two substitutions (a whole pair of hex digits, or one digit in each of two pairs)
+            for pos in range(len(b_) - 1):
+                for pair in ("GG", "G_", "Zz", "[]", "1G", "G1"):
+                    ctx.check(dict(k="refuse", what="near-miss", sp=["str", b_[:pos] + pair + b_[pos + 2:]]))
+                for pos2 in range(pos + 2, min(len(b_), pos + 4)):
+                    cand = b_[:pos] + "G" + b_[pos + 1:pos2] + "H" + b_[pos2 + 1:]
+                    ctx.check(dict(k="refuse", what="near-miss", sp=["str", cand]))
+        ctx.mark_exhaustive("single-character substitutions / insertions of hex-digit neighbours in 12 valid spellings")
